@@ -51,7 +51,7 @@ def run_main(args):
     pyh.setup_repo()
     import prophyc
     old = signal.signal(signal.SIGALRM, _alarm)
-    signal.setitimer(signal.ITIMER_REAL, WATCHDOG_S)
+    signal.setitimer(signal.ITIMER_REAL, WATCHDOG_S, 1.0)   # repeating: a raise inside a gc callback is swallowed
     try:
         import contextlib, io
         with pyh.quiet_stderr(), contextlib.redirect_stdout(io.StringIO()):
